@@ -237,6 +237,9 @@ def job_dwarf(payload):
     def q(t, fuel=FUEL * 5):
         return d.run(t, inp=inp, fuel=fuel, max=2000000, timeout=300)
     try:
+        probe = q("[entry] length")
+        if probe["st"] == "error" and "No DWARF" in probe.get("msg", ""):
+            return out      # an ELF file of tests/ without debug information: nothing to close over
         for e in DW_CLOSURES:
             out["n"] += 1
             # every DIE as start; result identity = (start DIE, reached DIE)
